@@ -157,6 +157,10 @@ def directed(rng):
         for conc in (1, 2, 3):
             add('note-then-call-c%d-%d' % (conc, v), {'conc': conc}, [S(note()), S(call(1)), D, hret('m1.1'), D, hret('m2.1'), D])
             add('note-then-note-c%d-%d' % (conc, v), {'conc': conc}, [S(note()), S(note()), S(call(1), call(2)), D, hret('m1.1'), D, hret('m2.1'), D, hret('m3.1'), hret('m3.2'), D])
+        # a result that arrives already encoded (json.RawMessage): passed on if it is JSON, an error (the encoder's, as a system error) for its call if it is not - the
+        # rest of the message is answered as usual
+        add('raw-results-%d' % v, {}, [S(call(1), call(2)), D, hret('m1.1', 'rawok'), hret('m1.2', 'rawbad'), D, S(call(1)), D, hret('m2.1', ['rawbad', 'rawok', 'rawbad'][v]), D,
+                                       S(note(), call(3), call(4)), D, hret('m3.1', 'rawbad'), hret('m3.2', 'rawbad'), hret('m3.3'), D])
         # F13: a handler error that cannot be encoded must not suppress the reply of its batch
         add('baddata-%d' % v, {}, [S(call(1), call(2)), D, hret('m1.1'), hret('m1.2', 'err:baddata'), D, S(call(1)), D, hret('m2.1', 'err:baddata'), D, S(note(), call(3)), D, hret('m3.1', 'err:baddata'), hret('m3.2'), D])
         # every way a connection ends closes the channel exactly once: also a closing-class Recv error while the server runs
